@@ -269,7 +269,8 @@ func (t *tunnel) run(topo string, seed int64, conns, maxBytes int, o *Out) strin
 		o.Fail("C07", clause, detail)
 		mu.Unlock()
 	}
-	chunkSizes := []int{1, 2, 7, 64, 500, 1000, 4096, 4097, 16384, 32768, 65536, 100000}
+	// single writes up to 1 MiB: one Write on a websocket leg is one message, whatever its size
+	chunkSizes := []int{1, 2, 7, 64, 500, 1000, 4096, 4097, 16384, 32768, 65536, 100000, 131073, 200000, 1 << 20}
 	bufSizes := []int{1, 3, 64, 512, 4096, 8192, 32768, 65536}
 	send := func(c net.Conn, data []byte, rr *rand.Rand) error {
 		for len(data) > 0 {
@@ -440,7 +441,7 @@ func (t *tunnel) run(topo string, seed int64, conns, maxBytes int, o *Out) strin
 func genTunnel(r *rand.Rand, tier string, w *bufio.Writer) {
 	topo := Pick(r, []string{"d1", "d2", "d1", "d2", "f1", "f2"})
 	conns := 1 + r.Intn(4)
-	maxBytes := Pick(r, []int{100, 5000, 70000, 300000})
+	maxBytes := Pick(r, []int{100, 5000, 70000, 300000, 300000, 1200000})
 	if tier == "thorough" {
 		maxBytes = Pick(r, []int{100, 5000, 70000, 300000, 2 << 20})
 	}
